@@ -34,6 +34,7 @@ the guard is gone.  The proof has two halves — (A) the engine requests propert
 statically known call sites `propSites ir`, (B) every call site is listed.
 -/
 import TrustfallModel.Proofs.Hints
+import TrustfallModel.Proofs.FrontendBridgeHints
 
 namespace TF.C05
 open TF TF.Engine
@@ -188,6 +189,52 @@ example : propSites okTagIR = [(1, "x"), (2, "y"), (1, "x"), (2, "y"), (1, "z"),
 
 end TF.C05
 
+/-! ### compiled queries
+
+The hypothesis `VidsDistinct ir` of `required_props_complete` holds for every query the (modelled)
+frontend accepts (`toIR_VidsDistinct`, from clause 2 of C11), so for compiled queries the statement
+is unconditional. -/
+namespace TF.C05.Compiled
+open TF TF.Engine TF.Frontend
+
+/-- **C05 for every query accepted by the frontend**: on the IR of any query the frontend compiles
+(over any schema), the table adapter that refuses every property outside the reported
+required-properties list behaves exactly like the table adapter. -/
+theorem required_props_complete_compiled {S : SchemaView} {q : Spec.Query} {ir : IRQuery}
+    (h : toIR S q = .ok ir) (D : Data) (args : List (Name × Value)) :
+    interpret { Env.ofData D args with adapter := requiredCheckedAdapter ir D } ir
+      = interpret (Env.ofData D args) ir :=
+  required_props_complete ir D args (toIR_VidsDistinct h)
+
+/-- one type `T` with a property `s : String` and an edge `e : [T]`; root `R : [T]` -/
+def exSchema : SchemaView :=
+  ⟨[⟨"T", false, [], [("s", ⟨"String", [true]⟩)], [⟨"e", "T", ⟨"T", [true, true]⟩, []⟩]⟩],
+   [⟨"R", "T", ⟨"T", [true, true]⟩, []⟩]⟩
+
+/-- `{ R { s @tag(name: "a") @output(name: "o")
+          e @fold { s @filter(op: "=", value: ["%a"]) @output(name: "p") } } }` — the tag is used
+only inside the fold (the shape of the former finding F-3). -/
+def exQuery : Spec.Query :=
+  ⟨"R", [], .mk none [
+    .prop "s" [.tag "a", .output "o"],
+    .edge "e" [] (.fold []) (.mk none [
+      .prop "s" [.filter (.bin .equals) (.tag "a"), .output "p"]])]⟩
+
+def accepted : M IRQuery → Bool
+  | .ok _ => true
+  | .error _ => false
+
+/-- Non-vacuity: the frontend accepts the example query, and the theorem applies to its IR. -/
+example : ∃ ir, toIR exSchema exQuery = .ok ir ∧ VidsDistinct ir ∧
+    ∀ D args, interpret { Env.ofData D args with adapter := requiredCheckedAdapter ir D } ir
+      = interpret (Env.ofData D args) ir := by
+  have hacc : accepted (toIR exSchema exQuery) = true := by decide +kernel
+  cases h : toIR exSchema exQuery with
+  | ok ir => exact ⟨ir, rfl, toIR_VidsDistinct h, required_props_complete_compiled h⟩
+  | error e => rw [h] at hacc; simp [accepted] at hacc
+
+end TF.C05.Compiled
+
 #print axioms TF.C05.calls_within_sites
 #print axioms TF.C05.sites_required_all
 #print axioms TF.C05.checked_invisible
@@ -197,3 +244,4 @@ end TF.C05
 #print axioms TF.C05.f3_plain_run
 #print axioms TF.C05.f3_checked_run
 #print axioms TF.C05.f3_post_filter_site_required
+#print axioms TF.C05.Compiled.required_props_complete_compiled
